@@ -4,6 +4,8 @@
    from the real Processor; see Model/MergeAt.v. *)
 From Coq Require Import List Ascii String ZArith NArith Bool.
 From YP Require Import Outcome PyStr PyVal Doc PathParser Searches MergeConfig Merge MergeAt MergeAtProofs.
+(* obligations tying the models' literal tables to the tables regenerated from the source *)
+From YP Require Import GenTables.
 Import ListNotations.
 Open Scope list_scope.
 
